@@ -32,6 +32,9 @@ MUTANTS = [
     ("vt.contracts.contractor_protocol", "Contractor.__call__", "cotengra/contract.py", "            temps[p] = p_array", "            temps[l] = p_array"),
     ("vt.contracts.contractor_protocol", "Contractor.__call__", "cotengra/contract.py", "                if perm:", "                if not perm:"),
     ("vt.contracts.contractor_protocol", "Contractor.__call__", "cotengra/contract.py", "            l_array = temps.pop(l)", "            l_array = temps.pop(r)"),
+    # C19 exponent bookkeeping in Contractor.__call__: sign of the exponent update, mantissa not divided
+    ("vt.contracts.contractor_protocol", "Contractor.__call__", "cotengra/contract.py", 'exponent = exponent + do("log10", factor, like=backend)', 'exponent = exponent - do("log10", factor, like=backend)'),
+    ("vt.contracts.contractor_protocol", "Contractor.__call__", "cotengra/contract.py", "p_array = p_array / factor", "p_array = p_array"),
     # C09 DP step: the seeded early sieve on the children's scores, a table update that can make an entry worse, a lost update
     ("vt.contracts.dp_step", "optimize_optimal_connected", "cotengra/pathfinders/path_basic.py", "                        # do sorted simultaneous iteration over ilegs and jlegs", "                        if iscore + jscore > cost_cap:\n                            continue"),
     ("vt.contracts.dp_step", "optimize_optimal_connected", "cotengra/pathfinders/path_basic.py", "if (current is None) or (new_score < current[1]):", "if True:"),
